@@ -83,6 +83,18 @@ type walker struct {
 	out   []wEvent
 	tour  int
 	notes []string
+	// scale walks (scale.go): the page size is left to the server's default (the request carries no
+	// max-* parameter, the walk is judged against `max` = that default), and the store content is what
+	// the harness itself wrote
+	omitMax      bool
+	liveOverride []wEntry
+}
+
+func (w *walker) reqMax(max int) int {
+	if w.omitMax {
+		return 0
+	}
+	return max
 }
 
 func (w *walker) emit(e wEvent) {
@@ -149,7 +161,7 @@ func (w *walker) walkObjectsSA(bucket string, live []wEntry, prefix, delim strin
 	marker, token := "", ""
 	hasMarker := false
 	for page := 0; page < maxPages; page++ {
-		op := Op{"op": "ListObjects", "b": bucket, "v2": v2, "prefix": fromBytes(prefix), "delim": fromBytes(delim), "max": float64(max)}
+		op := Op{"op": "ListObjects", "b": bucket, "v2": v2, "prefix": fromBytes(prefix), "delim": fromBytes(delim), "max": float64(w.reqMax(max))}
 		r := w.x.Build(op)
 		if carrySA {
 			r.Query.Set("start-after", "")
@@ -257,11 +269,15 @@ func (w *walker) walkVersions(bucket string, prefix, delim string, max int) bool
 			all = &lv
 		}
 	}
+	liveV := conv(all)
+	if w.liveOverride != nil {
+		liveV = w.liveOverride
+	}
 	w.emit(wEvent{T: "start", Kind: "versions", Exact: false, Pag: true, Max: max,
-		Prefix: fromBytes(prefix), Delim: fromBytes(delim), Live: conv(all), Style: "versions"})
+		Prefix: fromBytes(prefix), Delim: fromBytes(delim), Live: liveV, Style: "versions"})
 	km, vm, has := "", "", false
 	for page := 0; page < maxPages; page++ {
-		lv, obs := list(km, vm, has, max)
+		lv, obs := list(km, vm, has, w.reqMax(max))
 		if lv == nil {
 			w.emit(wEvent{T: "page", Note: fmt.Sprintf("status %d %s panic=%v", obs.Status, obs.ErrCode(), obs.Panic != ""), Trunc: true,
 				Ents: []wEntry{{K: []interface{}{}, ID: "!error", A: fmt.Sprint(obs.Status)}}})
@@ -295,10 +311,13 @@ func (w *walker) walkParts(up Op, max int) {
 		live = append(live, wEntry{K: []interface{}{float64(pn / 256), float64(pn % 256)}, ID: strconv.Itoa(pn),
 			A: fmt.Sprintf("%d/%s", len(body), quoteETag(body))})
 	}
+	if w.liveOverride != nil {
+		live = w.liveOverride
+	}
 	w.emit(wEvent{T: "start", Kind: "parts", Exact: true, Pag: true, Max: max, Live: live, Style: "parts"})
 	marker, has := 0, false
 	for page := 0; page < maxPages; page++ {
-		op := Op{"op": "ListParts", "b": up.S("b"), "k": up["k"], "uid": up.S("uid"), "max": float64(max), "marker": float64(marker), "hasMarker": has}
+		op := Op{"op": "ListParts", "b": up.S("b"), "k": up["k"], "uid": up.S("uid"), "max": float64(w.reqMax(max)), "marker": float64(marker), "hasMarker": has}
 		obs := w.x.Do(op)
 		var lp xListParts
 		if obs.Status != 200 || xml.Unmarshal(obs.Body, &lp) != nil {
@@ -330,11 +349,14 @@ func (w *walker) walkUploads(fin Op, bucket, prefix, delim string, max int) {
 		}
 		live = append(live, wEntry{K: fromBytes(uo.Key("k")), ID: w.x.realUid(uo.S("uid")), A: "", Ord: uo.I("ord")})
 	}
+	if w.liveOverride != nil {
+		live = w.liveOverride
+	}
 	w.emit(wEvent{T: "start", Kind: "uploads", Exact: true, Pag: true, Max: max, Prefix: fromBytes(prefix), Delim: fromBytes(delim),
 		Live: live, Style: "uploads"})
 	km, um, has := "", "", false
 	for page := 0; page < maxPages; page++ {
-		op := Op{"op": "ListUploads", "b": bucket, "prefix": fromBytes(prefix), "delim": fromBytes(delim), "max": float64(max)}
+		op := Op{"op": "ListUploads", "b": bucket, "prefix": fromBytes(prefix), "delim": fromBytes(delim), "max": float64(w.reqMax(max))}
 		if has {
 			op["keyMarker"] = km
 			op["uidMarker"] = um
